@@ -91,6 +91,9 @@ thread_local! {
     /// R6: build every Vec-backed argument with spare capacity (an EQUAL value in a different in-memory
     /// representation); the outcome must not depend on it.
     static ALT_REPR: std::cell::Cell<bool> = const { std::cell::Cell::new(false) };
+    /// R7: build an EQUAL operator configuration through another history (a dynamic weighted list that is
+    /// selected from between its builder calls)
+    static ALT_BUILD: std::cell::Cell<bool> = const { std::cell::Cell::new(false) };
 }
 
 /// The vector itself, or an equal one that went through a different allocation history.
@@ -209,6 +212,27 @@ fn registry() -> Vec<RegOp> {
         ),
         sel_op("Select(&Random) via &S", Random),
     ];
+    v.push(RegOp {
+        name: "DynWeighted (built per call)",
+        f: Box::new(move |seed, rng| {
+            let pop = make_pop(seed);
+            let used = ALT_BUILD.with(std::cell::Cell::get);
+            let warm = |d: &DynWeighted<Pop>| {
+                if used {
+                    let mut r = SimRng::seeded(seed ^ 0x77);
+                    let _ = d.select(&pop, &mut r);
+                    let _ = d.select(&Vec::new(), &mut r);
+                }
+            };
+            let mut d = DynWeighted::<Pop>::new(Best, if seed % 3 == 0 { 0 } else { 1 });
+            warm(&d);
+            d = d.with_selector(Lexicase::new(4), 5);
+            warm(&d);
+            d = d.with_selector(Tournament::binary(), 3);
+            warm(&d);
+            show(d.select(&pop, rng).map(|x| pop.iter().position(|y| std::ptr::eq(x, y))))
+        }),
+    });
     v.push(RegOp {
         name: "Box<dyn DynSelector>(Tournament)",
         f: {
@@ -608,6 +632,26 @@ impl C16 {
                         format!("capacity-dependent:{name}"),
                         format!(
                             "{name}: call #{i} gave {:?} on arguments built exactly and {:?} on EQUAL arguments built with spare capacity",
+                            ra[i], alt[i]
+                        ),
+                    ));
+                }
+            }
+        }
+        // R7: an equal configuration built through another history
+        {
+            ALT_BUILD.with(|a| a.set(true));
+            let alt = reference(&base_a);
+            ALT_BUILD.with(|a| a.set(false));
+            if let Ok(alt) = alt {
+                obs.count("steps", data.len() as u64);
+                if alt != ra {
+                    let i = ra.iter().zip(&alt).position(|(x, y)| x != y).unwrap_or(0);
+                    v.push(Violation::new(
+                        "nothing-else-influences-the-outcome",
+                        format!("build-history-dependent:{name}"),
+                        format!(
+                            "{name}: call #{i} gave {:?} on an operator built in one go and {:?} on an EQUAL configuration that was used between its builder calls",
                             ra[i], alt[i]
                         ),
                     ));
